@@ -132,6 +132,15 @@ def nested():
     d.append("DefX ::= SEQUENCE { a BOOLEAN, ..., b INTEGER (0..7) DEFAULT 3, c BOOLEAN DEFAULT TRUE, d IA5String (SIZE(0..3)) DEFAULT \"ab\" }")
     d.append("ManyOpt ::= SEQUENCE { " + ", ".join(f"o{i} BOOLEAN OPTIONAL" for i in range(10)) + " }")
     d.append("ManyAdd ::= SEQUENCE { r BOOLEAN, ..., " + ", ".join(f"a{i} INTEGER (0..3) OPTIONAL" for i in range(9)) + " }")
+    # 64 / 65 / 66 extension additions: the count leaves the 6-bit form, the bitmap is longer than a machine word
+    for k in (64, 65, 66):
+        d.append(f"Add{k} ::= SEQUENCE {{ r BOOLEAN, ..., " + ", ".join(f"e{i:02d} INTEGER (0..3) OPTIONAL" for i in range(k)) + " }")
+    # the marker position is found by NAME when the generated attribute is read back: names that differ only
+    # in case, a name that is a prefix of an earlier one
+    d.append("EnumCase ::= ENUMERATED { hz, mhz, mHz, ..., ghz }")
+    d.append("ChoiceCase ::= CHOICE { fooBar INTEGER (0..7), foobar BOOLEAN, ..., other NULL }")
+    d.append("SeqPrefix ::= SEQUENCE { speed-limit INTEGER (0..255) OPTIONAL, speed INTEGER (0..255) OPTIONAL, ..., note BOOLEAN OPTIONAL }")
+    d.append("SetPrefix ::= SET { ab-c BOOLEAN OPTIONAL, ab BOOLEAN OPTIONAL, ..., abc BOOLEAN OPTIONAL }")
     d.append("Deep ::= SEQUENCE { l1 SEQUENCE { l2 SEQUENCE { l3 SEQUENCE { v INTEGER (0..3) OPTIONAL, ..., w BOOLEAN OPTIONAL } OPTIONAL } }, t BOOLEAN }")
     d.append("ListOfX ::= SEQUENCE OF InnerX")
     d.append("ChoiceOfSeqX ::= CHOICE { a InnerX, ..., b OuterX }")
@@ -146,6 +155,12 @@ def sets():
     d.append("SetX ::= SET { b [1] BOOLEAN, a [0] INTEGER (0..3), ..., d [3] BOOLEAN OPTIONAL, c [2] INTEGER (0..3) OPTIONAL }")
     d.append("SetU ::= SET { s IA5String (SIZE(0..2)), i INTEGER (0..3), b BOOLEAN }")
     d.append("SeqT ::= SEQUENCE { c [2] INTEGER (0..7), a [0] BOOLEAN, b [1] INTEGER (0..3) OPTIONAL }")
+    # more than 20 components, most of them additions (all additions compare equal in the sort: it has to be stable)
+    roots = [7, 2, 5, 0, 6, 1, 4, 3]
+    d.append("SetBig ::= SET { " + ", ".join(f"r{t} [{t}] BOOLEAN" for t in roots) + ", ..., "
+             + ", ".join(f"e{i:02d} [{10 + i}] INTEGER (0..255) OPTIONAL" for i in range(14)) + " }")
+    d.append("SetBig2 ::= SET { " + ", ".join(f"r{t} [{t}] BOOLEAN" for t in roots[:4]) + ", ..., "
+             + ", ".join(f"e{i:02d} [{40 - i}] INTEGER (0..255) OPTIONAL" for i in range(18)) + " }")
     return module("ZooSet", "\n".join(d))
 
 
@@ -186,6 +201,14 @@ def versions():
     # an untagged extensible CHOICE inside a SET with explicit tags: the position of the CHOICE among the
     # SET's components is decided by its ROOT alternatives only (an added alternative with a smaller tag
     # must not move it)
+    # V2 appends an item whose name differs from the last ROOT item only in case
+    d.append("EnuCaseV1 ::= ENUMERATED { idle, readOnly, ... }")
+    d.append("EnuCaseV2 ::= ENUMERATED { idle, readOnly, ..., readonly }")
+    d.append("ChoCaseV1 ::= CHOICE { idle NULL, readOnly INTEGER (0..255), ... }")
+    d.append("ChoCaseV2 ::= CHOICE { idle NULL, readOnly INTEGER (0..255), ..., readonly BOOLEAN }")
+    # more than 64 additions on the sender's side
+    d.append("WideV1 ::= SEQUENCE { r BOOLEAN, ..., " + ", ".join(f"e{i:02d} INTEGER (0..3) OPTIONAL" for i in range(64)) + " }")
+    d.append("WideV2 ::= SEQUENCE { r BOOLEAN, ..., " + ", ".join(f"e{i:02d} INTEGER (0..3) OPTIONAL" for i in range(66)) + " }")
     d.append("SelV1 ::= CHOICE { code [5] INTEGER (0..255), ... }")
     d.append("SelV2 ::= CHOICE { code [5] INTEGER (0..255), ..., label [1] UTF8String (SIZE(0..5)) }")
     d.append("HoldV1 ::= SET { selector SelV1, level [3] INTEGER (0..255) }")
